@@ -294,6 +294,60 @@ def stepped_case(rng):
     return ant, dict(ant, wires=ws), ops
 
 
+def nonuniform_case(rng):
+    """a geo object whose segments are not all alike (a tapered wire, an arc, a helix) with plain wires joined to its ends;
+    second description: the plain wires reversed and / or listed before the object.  A junction pulse takes its far half
+    from the neighbouring object's segment *at the junction*, whichever end meets whichever end and whoever comes first."""
+    from mininec.mininec import Mininec, Helix
+    f = 10.0
+    lam = 299.8 / f
+    r = 0.002
+    kind = rng.choice(['taper', 'taper', 'arc', 'arc', 'helix'])
+    if kind == 'taper':
+        L = rng.uniform(4.0, 7.0)
+        d = np.array([rng.uniform(-1, 1), rng.uniform(-1, 1), rng.uniform(-1, 1)]); d /= np.linalg.norm(d)
+        A = np.array([0.3, -0.2, 0.5]); B = A + L * d
+        main = dict(kind='wire', nseg=rng.randint(5, 8), p0=[float(x) for x in A], p1=[float(x) for x in B], r=r, segtype=rng.choice([1, 2, 3]))
+        seg = L / main['nseg']
+    elif kind == 'arc':
+        R = rng.uniform(1.5, 2.5)
+        a1 = rng.choice([0.0, 20.0, -30.0]); a2 = a1 + rng.choice([120.0, 150.0, 200.0]) * rng.choice([1, -1])
+        n = rng.randint(6, 9)
+        main = dict(kind='arc', nseg=n, radius=R, a1=a1, a2=a2, r=r)
+        A = np.array([R * math.cos(math.radians(a1)), 0.0, R * math.sin(math.radians(a1))])
+        B = np.array([R * math.cos(math.radians(a2)), 0.0, R * math.sin(math.radians(a2))])
+        seg = 2 * R * math.sin(math.radians(abs(a2 - a1) / n / 2))
+    else:
+        main = dict(kind='helix', nseg=10, length=1.5, turnlen=0.75, r=r, rx=0.5, ry=0.3)
+        g = Mininec(f, [Helix(10, 1.5, 0.75, r, 0.5, 0.3)]).geo[0]
+        A, B = np.array([float(x) for x in g.endpoints[0]]), np.array([float(x) for x in g.endpoints[1]])
+        seg = float(g.segments[0].seg_len)
+    def stub(P, away):
+        d = np.array([rng.uniform(-1, 1), rng.uniform(-1, 1), rng.uniform(0.2, 1)]); d /= np.linalg.norm(d)
+        n = rng.randint(2, 4)
+        Q = P + away * d * n * seg * rng.uniform(0.8, 1.2)
+        return dict(kind='wire', nseg=n, p0=[float(x) for x in P], p1=[float(x) for x in Q], r=r)
+    stubs = [stub(B, 1.0)]
+    if rng.random() < 0.5:
+        stubs.append(stub(A, -1.0))
+    if rng.random() < 0.3:
+        stubs.append(stub(B, -1.0))
+    base = dict(f=f, ground=False, lam=lam, seg=seg, family='nonuniform-' + kind)
+    def variant():
+        ss, ops = [], []
+        for w in stubs:
+            w = dict(w)
+            if rng.random() < 0.5:
+                w['p0'], w['p1'] = w['p1'], w['p0']; ops.append('rev')
+            ss.append(w)
+        k = rng.randint(0, len(ss))
+        ops.append('main@%d' % k)
+        return dict(base, objs=ss[:k] + [dict(main)] + ss[k:]), ops
+    a1_, o1 = variant()
+    a2_, o2 = variant()
+    return a1_, a2_, o1 + ['|'] + o2
+
+
 def replay(rp):
     if rp.get('kind') == 'redescription':
         bad, tie = property_on_impl(rp['ant'], rp['ant2'], rp['src_seed'])
@@ -366,6 +420,24 @@ def run(ck):
                 dis.append(dict(ant=ant, ant2=ant2, src_seed=ss, why="Z' = T Z T^T off by %.3g, rhs' = T rhs off by %.3g" % tie))
         if bad:
             viol.append(dict(kind='redescription', ant=ant, ant2=ant2, src_seed=ss, mode='stepped', ops=ops, observed=bad))
+    for i in range(30 if ck.tier == 'quick' else 400):
+        ant, ant2, ops = nonuniform_case(rng)
+        ss = rng.randrange(10 ** 9)
+        try:
+            bad, tie = property_on_impl(ant, ant2, ss)
+        except Exception as e:
+            bad, tie = 'evaluation raised %s: %s' % (type(e).__name__, e), None
+        if bad is None and tie is None:
+            ck.count('skipped_cond_or_no_source')
+            continue
+        ck.case((ant['family'], tuple(ops), i), True, sample=dict(family=ant['family'], ops=ops) if i < 2 else None)
+        ck.count('mode_nonuniform')
+        if tie:
+            worst = [max(worst[0], tie[0]), max(worst[1], tie[1])]
+            if tie[0] > 5e-6 or tie[1] > 1e-12:
+                dis.append(dict(ant=ant, ant2=ant2, src_seed=ss, why="Z' = T Z T^T off by %.3g, rhs' = T rhs off by %.3g" % tie))
+        if bad:
+            viol.append(dict(kind='redescription', ant=ant, ant2=ant2, src_seed=ss, mode='nonuniform', ops=ops, observed=bad))
     for i in range(10 if ck.tier == 'quick' else 100):
         ant = symmetric_case(rng)
         bad = property_symmetric(ant)
@@ -377,7 +449,8 @@ def run(ck):
     ck.cov['rule'] = ('antennas of the shared generator (dipole, vee, ell, tee, star with 3-4 wires, monopole, top-loaded monopole, '
                       'two-element array, ground-plane antenna, polygon loops; free space and ideal ground) re-described by reversing '
                       'random subsets of wires, permuting the wire order, splitting straight wires at a random segment boundary, or all '
-                      'three; 1-3 sources on nodes carrying one pulse; non-trivial = at least one re-description operation applied')
+                      'three; tapered wires, arcs and helices with plain wires joined to either end, the plain wires reversed and listed before or '
+                      'after; 1-3 sources on nodes carrying one pulse; non-trivial = at least one re-description operation applied')
     ck.assumptions += ['pulses of the two descriptions are matched through their half segments (node position, far-end position) '
                        'quantised at 1e-6 segment lengths',
                        'the orientation-independence of the potential functional is a hypothesis of C06_flip_*; it is proved for the '
